@@ -24,20 +24,21 @@ CHECKS = {
                 note="Samples programs; independent factor table from scipy.constants (1e-6); alias units treated as equal.",
                 tech=TECH + ": seeded op/fault programs, units-stack reference model, single-fault enumeration"),
     "C08": dict(engine="esoworld", cat="exploration", ref="3.3",
-                text="Seeded histories of calculate / calculate_next / at / apply / set_dense_dt on evolution superoperators in both modes "
-                     "against expm of an independently assembled Liouvillian and a fresh propagator.",
+                text="Seeded histories of calculate / calculate_next / at / apply / set_dense_dt / set_PureDephasing / RWA conversions (with refused "
+                     "settings and mode misuse) on evolution superoperators in both modes against expm of an independently assembled "
+                     "Liouvillian and a propagator kept for the whole run.",
                 note="Samples systems of dim<=4 and grids<=40 points; trusts scipy.linalg.expm.",
                 tech=TECH + ": seeded call histories against an exact-exponential reference model"),
     "C09": dict(engine="bathalgebra", cat="exploration", ref="3.4",
                 text="Seeded addition histories (a+b, a+=b, self-add, groupings, unit contexts, refused temperature/axis mismatches) over "
                      "correlation functions and spectral densities against a component-list model rebuilt one component at a time.",
-                note="Samples histories of <=12 ops, <=6 components; component types limited to those constructible alone on this tree.",
+                note="Samples histories of <=18 ops, <=8 components; component types limited to those constructible alone on this tree.",
                 tech=TECH + ": seeded addition histories with refused operations, component-ledger reference model"),
     "C15": dict(engine="reuseworld", cat="exploration", ref="3.5",
                 text="Seeded histories of tensor construction, propagation (RDM, state vector, population, HEOM) and evolution-superoperator "
                      "calls on shared objects; every result is compared with the same call on twins rebuilt from recipes in a pristine "
                      "process, and every input is fingerprinted before and after.",
-                note="Samples histories of <=10 ops on dimers/trimers; propagator refinement is modelled as a setting.",
+                note="Samples histories of <=18 ops on dimers/trimers and one hand-made system (bath edits are part of the recipes); propagator refinement is modelled as a setting.",
                 tech=TECH + ": seeded reuse histories vs. pristine-fork twins"),
     "C17": dict(engine="rateworld", cat="exploration", ref="3.6",
                 text="Seeded histories of set_rate edits interleaved with propagator construction, propagation and sub-axis propagation "
